@@ -167,6 +167,7 @@ def solve_one(job):
     if trivial:
         return dict(idx=idx, verdict="unsat", backend="simplifier", stage="syntactic", time_s=0.0, model=None, reason="")
     verdict, model, reason, stage = "unknown", None, "", ""
+    backend_override, early_cvc5 = None, None
     stages = []
     if isinstance(full, tuple):
         stages.append(("uf-abstraction", full[0], {}))
@@ -193,6 +194,14 @@ def solve_one(job):
             verdict, model, reason = "unknown", None, f"z3 exception: {ex}"
         if verdict == "unsat":
             break
+        if stage == "ematch" and use_cvc5 and expect == "unsat":
+            # cvc5's enumerative instantiation often closes in a second what z3's MBQI stage then spends its whole budget on
+            r5, why5 = _cvc5_check(full, min(timeout_ms, 8000))
+            early_cvc5 = r5
+            if r5 == "unsat":
+                verdict, model, reason, stage = "unsat", None, why5, "cvc5-early"
+                backend_override = "cvc5"
+                break
         if verdict == "sat" and stage == "full":
             break
         if verdict == "sat" and stage == "qf-only":
@@ -200,7 +209,7 @@ def solve_one(job):
             verdict = "unknown"
         if verdict == "sat" and stage in ("ematch", "uf-abstraction"):
             verdict = "unknown"
-    backend = "z3"
+    backend = backend_override or "z3"
     if verdict == "unknown" and refute is not None and expect == "unsat":
         # is the goal *contradicted* by the path condition?  (hyps and goal) unsat  ==>  the obligation fails on every state of this path
         try:
